@@ -185,6 +185,22 @@ fn normalise(batch: &[Op], w: &World) -> Vec<Op> {
                 _ => false,
             };
             if applicable && out.is_empty() {
+                if let Op::Config { .. } = op {
+                    // a configuration change may race with closes / deletes of open documents
+                    // (not with text updates: that is the disk re-read finding)
+                    let mut v = vec![op.clone()];
+                    let mut seen = [false; 4];
+                    for o in batch {
+                        if let Op::Close { doc } | Op::Delete { doc } = o {
+                            let i = *doc as usize % DOCS.len();
+                            if !seen[i] && w.docs[i].open && DOCS[i].2 && v.len() < 4 {
+                                seen[i] = true;
+                                v.push(Op::Close { doc: *doc });
+                            }
+                        }
+                    }
+                    return v;
+                }
                 return vec![op.clone()];
             }
             continue;
@@ -239,6 +255,10 @@ fn exec_batch(w: &mut World, batch: &[Op], salt: u64, ctx: &mut CaseCtx) -> Resu
     let mut responses: Vec<i64> = vec![];
     // publications of ops that do not wait for a configuration answer
     let mut immediate_pubs = 0usize;
+    let config_with_closes = batch.len() >= 2 && matches!(batch[0], Op::Config { .. });
+    if config_with_closes {
+        return exec_config_with_closes(w, batch, salt, ctx);
+    }
     let single_global = batch.len() == 1 && matches!(batch[0], Op::Config { .. } | Op::AddUser { .. } | Op::AddFile { .. } | Op::EditUserDict { .. });
     // pre-pass (nothing of the batch is in flight yet): the lint JSON an editor would send with
     // HarperIgnoreLint comes from a code action
@@ -360,8 +380,10 @@ fn exec_batch(w: &mut World, batch: &[Op], salt: u64, ctx: &mut CaseCtx) -> Resu
                 w.config_idx = *idx as usize % CONFIGS.len();
                 let settings = settings_for(&w.sb, w.config_idx);
                 w.s.settings = settings.clone();
-                w.r.settings = settings.clone();
-                w.r.notify("workspace/didChangeConfiguration", json!({"settings": settings}))?;
+                // the reference is a *fresh* server that only ever saw the final settings
+                let fresh = Server::start(&w.sb, settings.clone(), None)?;
+                let old = std::mem::replace(&mut w.r, fresh);
+                let _ = old.shutdown();
                 w.s.notify("workspace/didChangeConfiguration", json!({"settings": settings}))?;
                 for i in 0..DOCS.len() {
                     if w.docs[i].open {
@@ -459,6 +481,95 @@ fn exec_batch(w: &mut World, batch: &[Op], salt: u64, ctx: &mut CaseCtx) -> Resu
     Ok(Ok(()))
 }
 
+/// didChangeConfiguration in flight together with closes: the refresh loop of the configuration
+/// handler awaits one configuration answer per document while the closes complete at once.
+fn exec_config_with_closes(w: &mut World, batch: &[Op], salt: u64, ctx: &mut CaseCtx) -> Result<Result<(), String>, LspError> {
+    let Op::Config { idx } = &batch[0] else { return Ok(Ok(())) };
+    for i in 0..DOCS.len() {
+        if w.docs[i].open {
+            w.write_disk(i)?;
+        }
+    }
+    let uris: Vec<String> = (0..DOCS.len()).map(|i| w.uri(i)).collect();
+    w.config_idx = *idx as usize % CONFIGS.len();
+    let settings = settings_for(&w.sb, w.config_idx);
+    w.s.settings = settings.clone();
+    let fresh = Server::start(&w.sb, settings.clone(), None)?;
+    let old = std::mem::replace(&mut w.r, fresh);
+    let _ = old.shutdown();
+    w.s.manual = true;
+    let closing: Vec<usize> = batch[1..].iter().filter_map(|o| if let Op::Close { doc } = o { Some(*doc as usize % DOCS.len()) } else { None }).collect();
+    let before: Vec<usize> = uris.iter().map(|u| w.s.publications_for(u)).collect();
+    // the closes are sent right behind the configuration change, or (salt) in front of it
+    let config_first = salt & 1 == 0;
+    if config_first {
+        w.s.notify("workspace/didChangeConfiguration", json!({"settings": settings}))?;
+    }
+    for &i in &closing {
+        w.s.notify("textDocument/didClose", json!({"textDocument": {"uri": uris[i]}}))?;
+        w.docs[i].open = false;
+        w.docs[i].ignored.clear();
+    }
+    if !config_first {
+        w.s.notify("workspace/didChangeConfiguration", json!({"settings": settings}))?;
+    }
+    // every document that stays open is refreshed exactly once; answer requests as they come
+    let staying: Vec<usize> = (0..DOCS.len()).filter(|i| w.docs[*i].open).collect();
+    let done = |s: &Server| staying.iter().all(|&i| s.publications_for(&uris[i]) > before[i]);
+    let mut guard = 0;
+    while !done(&w.s) && guard < 16 {
+        guard += 1;
+        w.s.pump_until(T, "configuration request of the refresh loop", |s| !s.pending_config.is_empty() || done(s))?;
+        if w.s.pending_config.is_empty() {
+            break;
+        }
+        let pubs = w.s.publications.len();
+        w.s.answer_config(0)?;
+        w.s.pump_until(T, "publication after a configuration answer", |s| s.publications.len() > pubs)?;
+    }
+    for &i in &closing {
+        let (u, b) = (uris[i].clone(), before[i]);
+        w.s.pump_until(T, "publication of the close", |s| s.publications_for(&u) > b)?;
+    }
+    // a refresh of a document that was closed meanwhile may still be under way
+    for _ in 0..4 {
+        w.s.settle(Duration::from_millis(300))?;
+        if w.s.pending_config.is_empty() {
+            break;
+        }
+        let pubs = w.s.publications.len();
+        w.s.answer_config(0)?;
+        w.s.pump_until(T, "publication after a late configuration answer", |s| s.publications.len() > pubs)?;
+    }
+    ctx.class("configuration_change_racing_with_close");
+    check_publications(w, &uris)
+}
+
+fn check_publications(w: &mut World, uris: &[String]) -> Result<Result<(), String>, LspError> {
+    for i in 0..DOCS.len() {
+        let Some(last) = w.s.last_publication(&uris[i]).cloned() else { continue };
+        if !w.docs[i].open {
+            if !last.is_empty() {
+                return Ok(Err(format!(
+                    "document {} is closed but its most recent publication has {} diagnostics: {:?}",
+                    DOCS[i].0, last.len(), keys(&last)
+                )));
+            }
+            continue;
+        }
+        if w.docs[i].ignored.is_empty() {
+            let fresh = w.reference(i)?;
+            if keys(&last) != keys(&fresh) {
+                return Ok(Err(format!(
+                    "document {} ({}): most recent publication {:?} differs from what a fresh server publishes for its newest text under the current configuration #{}: {:?}",
+                    DOCS[i].0, DOCS[i].1, keys(&last), w.config_idx, keys(&fresh)
+                )));
+            }
+        }
+    }
+    Ok(Ok(()))
+}
+
 pub fn test_history(h: &History, ctx: &mut CaseCtx) -> Result<(), String> {
     let r = (|| -> Result<Result<(), String>, LspError> {
         let mut w = new_world()?;
@@ -524,7 +635,11 @@ pub fn history_strategy(max_batches: usize) -> BoxedStrategy<History> {
     // the first batch opens several documents at once, so that later batches find open documents
     let first = (proptest::collection::vec((0u8..4, any::<u8>()), 2..5), any::<u64>())
         .prop_map(|(v, salt)| (v.into_iter().map(|(doc, text)| Op::Open { doc, text }).collect::<Vec<_>>(), salt));
-    (first, proptest::collection::vec((proptest::collection::vec(op(), 1..7), any::<u64>()), 0..max_batches))
+    let batch = prop_oneof![
+        6 => proptest::collection::vec(op(), 1..7),
+        1 => (any::<u8>(), 0u8..4, 0u8..4).prop_map(|(idx, a, b)| vec![Op::Config { idx }, Op::Close { doc: a }, Op::Close { doc: b }]),
+    ];
+    (first, proptest::collection::vec((batch, any::<u64>()), 0..max_batches))
         .prop_map(|(f, mut rest)| {
             let mut batches = vec![f];
             batches.append(&mut rest);
@@ -636,6 +751,7 @@ pub fn run(run: &mut Run) {
     run.require_class("scheduled_histories", "two_or_more_handlers_in_flight", (n / 2) as u64);
     run.require_class("scheduled_histories", "handlers_completed_out_of_arrival_order", (n / 3) as u64);
     run.require_class("scheduled_histories", "close_or_delete_in_a_concurrent_batch", (n / 10) as u64);
+    run.require_class("scheduled_histories", "configuration_change_racing_with_close", (n / 10) as u64);
 }
 
 pub fn replay(_check: &str, case: Value, _run: &mut Run) -> Result<(), String> {
